@@ -210,7 +210,7 @@ theorem addFrames_inv (ndim : Nat) (hnd : ndim = 2 ∨ ndim = 3) :
 theorem Inv.init (ndim : Nat) : Inv ndim [] St.init :=
   ⟨rfl, rfl, rfl, rfl, TracksInv.nil⟩
 
-theorem CoordsPre.init (ndim : Nat) (hnd : ndim = 2 ∨ ndim = 3) : CoordsPre ndim [] St.init.coords := by
+theorem CoordsPre.init (ndim : Nat) (_hnd : ndim = 2 ∨ ndim = 3) : CoordsPre ndim [] St.init.coords := by
   by_cases h3 : ndim = 3
   · exact Or.inr ⟨h3, rfl, rfl⟩
   · exact Or.inl (CoordsOk.two [] [] h3 rfl rfl)
